@@ -36,20 +36,38 @@ const c13None = "-"
 
 type c13World struct {
 	nodes map[string]any // spec name -> Go node
-	names map[any]string // Go node -> spec name
 	order []string
 	probe []any
 	pop   []string
 }
 
+// Node kinds.  VERIF_KINDS selects which Go values stand behind the spec's node names:
+//   "a" (default)  string, struct value, pointer to a fmt.Stringer, string
+//   "b"            pointer to a struct without String(), []byte, pointer to int, int
+//   "c"            pointer to a Stringer, pointer to a struct, string, []byte   (kinds mixed the other way)
+// lang.Repr, which names a node inside the ring, treats each of them differently (Stringer,
+// pointer dereference, []byte as string, fmt.Sprint of a struct).
 func newC13World(pop int, seed int64) *c13World {
-	w := &c13World{nodes: map[string]any{}, names: map[any]string{}}
-	w.nodes["n1"] = "10.0.0.1:6379"                       // string
-	w.nodes["n2"] = c13Struct{Host: "10.0.0.2", Port: 6379} // struct (repr through fmt.Sprint)
-	w.nodes["n3"] = &c13Stringer{name: "cache-node-3"}     // fmt.Stringer
-	w.nodes["n4"] = "10.0.0.4:6379"
-	for k, v := range w.nodes {
-		w.names[v] = k
+	w := &c13World{nodes: map[string]any{}}
+	seven := 7
+	switch kit.Env("VERIF_KINDS", "a") {
+	case "b":
+		w.nodes["n1"] = &c13Struct{Host: "10.0.1.1", Port: 6379} // pointer to struct, no String()
+		w.nodes["n2"] = []byte("10.0.1.2:6379")                    // []byte (not comparable)
+		w.nodes["n3"] = &seven                                     // pointer to int
+		w.nodes["n4"] = 424242                                     // int
+	case "c":
+		w.nodes["n1"] = &c13Stringer{name: "cache-node-c1"}
+		w.nodes["n2"] = &c13Struct{Host: "10.0.2.2", Port: 6380}
+		w.nodes["n3"] = "10.0.2.3:6379"
+		w.nodes["n4"] = []byte("10.0.2.4:6379")
+	default:
+		w.nodes["n1"] = "10.0.0.1:6379"                       // string
+		w.nodes["n2"] = c13Struct{Host: "10.0.0.2", Port: 6379} // struct (repr through fmt.Sprint)
+		w.nodes["n3"] = &c13Stringer{name: "cache-node-3"}     // fmt.Stringer
+		w.nodes["n4"] = "10.0.0.4:6379"
+	}
+	for k := range w.nodes {
 		w.order = append(w.order, k)
 	}
 	sort.Strings(w.order)
@@ -61,12 +79,24 @@ func newC13World(pop int, seed int64) *c13World {
 	return w
 }
 
+// same: is the value Get returned this very node?  ([]byte nodes are not comparable with ==.)
+func c13Same(a, b any) bool {
+	ab, aok := a.([]byte)
+	bb, bok := b.([]byte)
+	if aok || bok {
+		return aok && bok && len(ab) > 0 && len(bb) > 0 && &ab[0] == &bb[0] && len(ab) == len(bb)
+	}
+	return a == b
+}
+
 func (w *c13World) nameOf(n any, ok bool) string {
 	if !ok {
 		return c13None
 	}
-	if s, found := w.names[n]; found {
-		return s
+	for _, name := range w.order {
+		if c13Same(w.nodes[name], n) {
+			return name
+		}
 	}
 	return "?" + fmt.Sprint(n)
 }
